@@ -1,3 +1,4 @@
+import LokyModel.Lemmas.ExecTerm
 import LokyModel.Props.C02
 /-!
 # C06 — forced shutdown is prompt, total and explicit (executor protocol)
@@ -111,5 +112,16 @@ example : ∃ s', mRun 4 (mKillNext { (init { maxWorkers := 2, timeout := false,
       procDict := [100, 101], allPids := [100, 101], w := fun p => if p = 100 ∨ p = 101 then .gAcq else .dead })
     = some s' ∧ s'.mpc = .jAcq1 ∧ s'.procDict = [] :=
   ⟨_, rfl, rfl, rfl⟩
+
+
+/-- **Total**: from the moment the manager starts killing workers, every future of the executor is resolved
+    (the unfinished ones with `ShutdownExecutorError`, `C06_unfinished_get_shutdown_error`) and none of them
+    changes afterwards, whatever results are still in the pipes. -/
+theorem C06_all_resolved_and_frozen (cfg : Cfg) (s s' : St) (sched : List (Actor × Variant)) (h : Reachable cfg s)
+    (ht : mTerm s.mpc = true) (hr : run s sched = some s') (i : Wid) (hi : i < s.futs.length) :
+    (futOf s i).done = true ∧ futOf s' i = futOf s i := by
+  have hp := termInv_reachable h ht
+  have hd := (futInv_reachable h).resolved i hi (by rw [hp]; simp)
+  exact ⟨hd, done_sticky_run sched s s' h hr i hd⟩
 
 end LokyModel.Exec
